@@ -114,6 +114,7 @@ def _split_histories(ctx, ca, rnd):
     specs = []
     for _ in range(40 if ctx.tier == "quick" else 400):
         body = []
+        multi = []          # (index in body, abstract entry) of the entries that will be split
         for i in range(rnd.randint(3, 8)):
             if rnd.random() < 0.18:
                 body.append("remark " + rnd.choice(["= B1", "= B2", "plain"]))
@@ -129,6 +130,18 @@ def _split_histories(ctx, ca, rnd):
                 if a[f][0] != "set":
                     a[f] = ("set", 0x0A000000 + i, 0)
             body.append(" ".join(acetext.valid_text(rnd, ca, "ios", "0", a, None)))
+            if any(a[f] and a[f][0] == "eq" and len(a[f][1]) > 1 for f in ("sport", "dport")):
+                multi.append((len(body) - 1, a))
+        if multi and rnd.random() < 0.5:
+            # an entry that EQUALS one of the single-port entries a split will produce, standing above or below the
+            # entry that is split (a split must not drop, merge or reorder anything because of it)
+            at, a = rnd.choice(multi)
+            b = dict(a)
+            for f in ("sport", "dport"):
+                if b[f] and b[f][0] == "eq":
+                    b[f] = ("eq", [rnd.choice(b[f][1])])
+            line = " ".join(acetext.valid_text(rnd, ca, "ios", "0", b, None))
+            body.insert(rnd.choice([at, at + 1, len(body), 0]), line)
         spec = {"platform": "ios", "port_nr": rnd.random() < 0.2, "protocol_nr": False, "body": body, "ops": []}
         try:
             a_ = ops.build(ca, spec)
